@@ -150,6 +150,14 @@ def mangle(frame: bytes, how: dict[str, Any]) -> bytes | None:
         return frame[:p] + bytes([frame[p] ^ (1 << (how["bit"] % 8))]) + frame[p + 1 :]
     if t == "append":
         return frame + bytes.fromhex(how["hex"])
+    if t == "members":
+        # a series of `count` complete frames / gzip members (RFC 1952 multi-member stream, `cat a.gz b.gz`): each one is
+        # within whatever cap fits one plaintext, the whole decodes to `count` times as much
+        return frame * how["count"]
+    if t == "append_frame":
+        # one complete frame followed by a complete frame of another codec / kind
+        other = build_frame(how["codec"], how["fkind"], make_plain(how["plain"]), None)
+        return frame + other
     raise ValueError(t)
 
 
@@ -428,7 +436,7 @@ def run(ctx: Any) -> None:
         x = make_plain(pspec)
         codec = rng.choice(["zstd", "gzip"])
         kind = rng.choice(ZSTD_KINDS if codec == "zstd" else GZIP_KINDS)
-        t = rng.choice(["truncate", "truncate", "garbage", "lying", "flip", "append"])
+        t = rng.choice(["truncate", "truncate", "garbage", "lying", "flip", "append", "members", "append_frame"])
         if t == "lying":
             codec, kind = "zstd", rng.choice(["repo", "oneshot_checksum", "stream_writer_size"])
         frame = build_frame(codec, kind, x, None)
@@ -440,6 +448,12 @@ def run(ctx: Any) -> None:
             how = {"type": t, "declared": rng.choice([0, 1, max(0, len(x) - 1), len(x) + 1, 2 * len(x) + 7, 256, 70000, 10**6, 2**31])}
         elif t == "flip":
             how = {"type": t, "pos": rng.randrange(0, 1 << 20), "bit": rng.randrange(8)}
+        elif t == "members":
+            how = {"type": t, "count": rng.choice([2, 3, 5, 10, 40])}
+        elif t == "append_frame":
+            oc = rng.choice(["zstd", "gzip"])
+            how = {"type": t, "codec": oc, "fkind": rng.choice(ZSTD_KINDS if oc == "zstd" else GZIP_KINDS),
+                   "plain": rng.choice([{"hex": "78"}, {"pattern": "text", "n": 500}, {"pattern": "zeros", "n": 70000}])}
         else:
             how = {"type": t, "hex": rng.choice(["00", "deadbeef", frame[:16].hex()])}
         bad = mangle(frame, how)
